@@ -382,6 +382,8 @@ VP_HARNESS(h_tecmp_header)
     const bool sentinel = vp_be16(hb + 6) == 0xFF00 || hb[5] == 0xFF;  // no such data type: the library's own "invalid header" marker
     if (!fits)
         vp_assert(!accepted, "C15: a declared payload length of zero or beyond the buffer is not accepted");
+    if (!fits)
+        vp_assert(!accepted, "C02: a TECMP header whose declared payload does not fit the buffer is not accepted (later reads use the declared length)");
     else if (!sentinel)
     {
         vp_assert(accepted, "C15: a header whose declared payload fits the buffer is accepted");
